@@ -174,6 +174,14 @@ func (g *Gen) instr(in ssa.Instruction, st *State, reach string) bool {
 			g.fail(in.Pos(), "channel operation in P-level function")
 		}
 		g.unmodelled["channel operation"] = true
+		switch x := in.(type) {
+		case *ssa.Select:
+			if x.Blocking {
+				g.neverBlocks(in.Pos(), "a select without default", st)
+			}
+		case *ssa.Send:
+			g.neverBlocks(in.Pos(), "a channel send outside a select with default", st)
+		}
 		if v, ok := in.(ssa.Value); ok {
 			sv := g.defineHavoc(v, "channel")
 			if sel, isSel := in.(*ssa.Select); isSel && len(sv.Tup) > 0 {
@@ -308,6 +316,7 @@ func (g *Gen) unop(in *ssa.UnOp, st *State, reach string) {
 			g.fail(in.Pos(), "channel receive in P-level function")
 		}
 		g.defineHavoc(in, "channel receive")
+		g.neverBlocks(in.Pos(), "a channel receive outside a select with default", st)
 		if g.con.Opts["channels"] == "quiet" {
 			g.trusted["channel operations change no modelled state (no other goroutine runs in between); opt: channels=quiet"] = true
 		} else {
@@ -546,6 +555,23 @@ func (g *Gen) bitFun(op string, bits int, unsigned bool, x, y string, t types.Ty
 		g.trusted["bit operation "+name+" modelled as uninterpreted function with range facts"] = true
 	}
 	return "(" + name + " " + x + " " + y + ")"
+}
+
+// neverBlocks: with "opt: nonblocking" every channel operation that can wait (a send or receive outside
+// a select, a select without default) is an obligation that it is unreachable.
+func (g *Gen) neverBlocks(pos token.Pos, what string, st *State) {
+	if g.con.Opts["nonblocking"] == "" {
+		return
+	}
+	n := g.safeCtr["neverblocks"]
+	g.safeCtr["neverblocks"]++
+	reach := "true"
+	if g.curBlock != nil {
+		if r, ok := g.reach[g.curBlock]; ok {
+			reach = r
+		}
+	}
+	g.addObl("never-blocks", fmt.Sprint(n), implies(reach, "false"), pos, what+" can wait for another goroutine; this function must not", nil)
 }
 
 func (g *Gen) phi(in *ssa.Phi, st *State) {
